@@ -10,7 +10,7 @@ use nom::branch::alt;
 use nom::bytes::complete::{take_until, take_while};
 use nom::character::complete::{alpha1, char, digit1};
 use nom::combinator::{map, map_res, opt};
-use nom::multi::{separated_list0, separated_list1};
+use nom::multi::separated_list0;
 use nom::sequence::{pair, separated_pair, terminated};
 use nom::*;
 use nom::{
@@ -432,7 +432,7 @@ fn parse_http_signature(input: &str) -> IResult<&str, HttpSignature> {
     let (input, (version, _, horder, _, habsent, _, expsw)) = (
         parse_http_version,
         tag(":"),
-        separated_list1(tag(","), parse_http_header),
+        separated_list0(tag(","), parse_http_header),
         tag(":"),
         opt(separated_list0(tag(","), parse_http_header)),
         tag(":"),
@@ -440,6 +440,9 @@ fn parse_http_signature(input: &str) -> IResult<&str, HttpSignature> {
     )
         .parse(input)?;
 
+    // An empty list is written as an empty field; the header parser accepts the empty name,
+    // so drop such placeholders from both lists.
+    let horder: Vec<HttpHeader> = horder.into_iter().filter(|h| !h.name.is_empty()).collect();
     let habsent = habsent
         .unwrap_or_default()
         .into_iter()
